@@ -401,8 +401,17 @@ fn mk_world(variant: u8) -> World {
     let (mut admin, mut arx) = Client::new_empty_and_receiver();
     let w = World { dbs };
     for c in ["auth u p", "create-db d tok", "use-db d tok", "set secret 42", "set public1 p1", "set sea 7",
-              "create-user usr ut", "create-user nolist nt", "set-permissions usr r sec*|w pub*"] {
+              "set user1 u1", "set publicity-budget 1000", "set my-public mp", "set cnt 3", "set xcnt 4", "set gone g",
+              "create-user usr ut", "create-user nolist nt", "create-user mix mt", "create-user star st",
+              "set-permissions usr r sec*|w pub*", "set-permissions mix rw user*,*public|i cnt", "set-permissions star rwix *"] {
         run_cmd(&w, &mut admin, &mut arx, c);
+    }
+    {   // "gone" was snapshotted and then removed: it stays in memory as a tombstone
+        let m = w.dbs.map.read().unwrap();
+        let db = m.get("d").unwrap();
+        let v = db.get_value("gone".into()).unwrap();
+        db.set_value_as_ok(&"gone".to_string(), &v, 11, 12, v.opp_id);
+        remove_key(&"gone".to_string(), db);
     }
     run_cmd(&w, &mut admin, &mut arx, if variant == 0 { "set $$secret S3CR3T-A" } else { "set $$secret S3CR3T-B-longer" });
     if variant == 1 { run_cmd(&w, &mut admin, &mut arx, "set $$extra XTRA"); }
@@ -426,7 +435,24 @@ fn norm_reply(r: &Response) -> String {
 }
 fn is_err(r: &Response) -> bool { matches!(r, Response::Error { .. }) }
 
-const LOGIN: [&str; 4] = ["", "use-db d tok", "use-db d usr ut", "use-db d nolist nt"];
+const LOGIN: [&str; 6] = ["", "use-db d tok", "use-db d usr ut", "use-db d nolist nt", "use-db d mix mt", "use-db d star st"];
+const PERM_KEYS: [&str; 9] = ["secret", "public1", "sea", "user1", "publicity-budget", "my-public", "cnt", "xcnt", "gone"];
+/// the permission lists of the world, as stored
+fn perm_list(login: &str) -> Option<&'static str> {
+    match login { "use-db d usr ut" => Some("r sec*|w pub*"), "use-db d mix mt" => Some("rw user*,*public|i cnt"), "use-db d star st" => Some("rwix *"), _ => None }
+}
+/// reference semantics of a permission list, written from the documentation (user-management.md): statements separated by `|`,
+/// each `<kind letters> <pattern>,<pattern>...`; `x*` = prefix, `*x` = suffix, otherwise substring
+fn ref_list_grants(list: &str, key: &str, kind: char) -> bool {
+    list.split('|').any(|st| {
+        let mut it = st.splitn(2, ' ');
+        let kinds = it.next().unwrap_or("");
+        let pats = it.next().unwrap_or("");
+        kinds.contains(kind) && pats.split(',').any(|p| {
+            if p.ends_with('*') { key.starts_with(&p.replace("*", "")) } else if p.starts_with('*') { key.ends_with(&p.replace("*", "")) } else { key.contains(p) }
+        })
+    })
+}
 const DATA_CMDS: [&str; 22] = ["get secret", "get-safe secret", "get public1", "set secret x", "set public1 y", "set-safe public1 0 z", "increment sea 1", "remove public1", "remove secret",
     "watch secret", "keys", "keys *", "keys $*", "keys $$*", "keys *$$", "keys sec*", "keys *1",
     "get $$secret", "set $$secret hacked", "remove $$token", "increment $$secret 1", "watch $$secret"];
@@ -436,11 +462,8 @@ const USE_FAIL: [&str; 4] = ["use-db d wrong", "use-db d usr wrong", "use-db nos
 
 fn ref_allowed(login: &str, key: &str, kind: char) -> bool {
     if key.starts_with("$$") { return false; }
-    match login {
-        "use-db d tok" => true,
-        "use-db d usr ut" => match kind { 'r' => key.starts_with("sec"), 'w' => key.starts_with("pub"), _ => false },
-        _ => false,
-    }
+    if login == "use-db d tok" { return true; }
+    match perm_list(login) { Some(l) => ref_list_grants(l, key, kind), None => false }
 }
 fn ref_keys(pattern: &str, all: &[&str]) -> Vec<String> {
     let mut v: Vec<String> = all.iter().filter(|k| !k.starts_with("$$")).filter(|k| {
@@ -483,14 +506,18 @@ fn scenario_session(sc: &str) -> Result<Violations, String> {
                 chk(&mut v, "C09.auth-gate", is_err(&r)); chk(&mut v, "C09.auth-refusal", is_err(&r));
             }
             // ---- C09: data commands need a selected database; permissions
-            if DATA_CMDS.contains(cmd) && !key.starts_with("$$") {
+            if (DATA_CMDS.contains(cmd) || PERM_KEYS.contains(&key)) && !key.starts_with("$$") {
                 if login.is_empty() { chk(&mut v, "C09.needs-selected-db", is_err(&r)); }
                 let kind = match word { "get" | "get-safe" | "watch" => Some('r'), "set" | "set-safe" => Some('w'), "increment" => Some('i'), "remove" => Some('x'), _ => None };
                 if let Some(k) = kind {
                     if !login.is_empty() && c.selected_db_name().is_some() {
                         let allowed = ref_allowed(login, key, k);
                         if !allowed { chk(&mut v, "C09.permission-gate", is_err(&r)); chk(&mut v, "C09.no-list", is_err(&r)); chk(&mut v, "C09.list-decides", is_err(&r)); }
-                        else { chk(&mut v, "C09.list-decides", !is_err(&r)); chk(&mut v, "C09.token-session-default", !is_err(&r)); }
+                        else {
+                            // allowed: the command may still fail for its own reasons (e.g. "Key is not numeric"), but not for lack of permission
+                            let denied = matches!(&r, Response::Error { msg } if msg == "permission denied\n");
+                            chk(&mut v, "C09.list-decides", !denied); chk(&mut v, "C09.token-session-default", !denied);
+                        }
                     }
                 }
             }
@@ -524,6 +551,8 @@ fn all_session_scenarios() -> Vec<String> {
     let mut out = vec![];
     for l in 0..LOGIN.len() {
         for a in DATA_CMDS.iter().chain(ADMIN_CMDS.iter()) { out.push(format!("{}|{}", l, a)); }
+        for k in PERM_KEYS { for c in ["get", "set", "increment", "remove", "watch"] { out.push(format!("{}|{} {}{}", l, c, k, if c == "set" { " v" } else if c == "increment" { " 1" } else { "" })); } }
+        for pat in ["keys g*", "keys *e", "keys on", "keys go*"] { out.push(format!("{}|{}", l, pat)); }
         for f in USE_FAIL { for a in ["get secret", "get public1", "set secret x", "keys", "remove sea"] { out.push(format!("{}|{};{}", l, f, a)); } }
         for a in ["set public1 y", "remove public1", "remove secret", "increment sea 1"] { for b in ["keys", "keys *", "get public1", "get secret", "keys pub*"] { out.push(format!("{}|{};{}", l, a, b)); } }
         if deep() {
